@@ -8,6 +8,7 @@ from pjrpc.server import AsyncDispatcher, Dispatcher, MethodRegistry, ViewMixin
 from pjrpc.server.specs import openapi as oa
 from pjrpc.server.specs import openrpc as orpc
 from pjrpc.server.specs.extractors.pydantic import PydanticSchemaExtractor
+from pjrpc.server.validators import BaseValidator
 
 from harness.lib import dispenv
 from harness.lib.coqterm import cjson, cstr, clist, cbool
@@ -16,7 +17,7 @@ ID = 'C17'
 CASE_TYPE = 'C17.case'
 EXTRA_IMPORTS = 'From PJ Require Import Model.Bind Lemmas.BindL.\n'
 RULE = ('all signatures of 0..3 (quick) / 0..4 (thorough) parameters over positional-or-keyword / keyword-only kinds x defaults x '
-        '{no context, context parameter by name at each position} x {function, coroutine, class-based view method} (+ the same function registered a second time without the context designation and served first); for each the OpenAPI '
+        '{no context, context parameter by name at each position} x {function, coroutine, class-based view method} (+ the same function registered a second time without the context designation and served first) (+ an exclusion predicate shared by the validator and the schema extractor, selecting each non-empty subset of the defaulted parameters, by name or by the type of the default); for each the OpenAPI '
         '3.0 / 3.1 request schema and the OpenRPC params list are REALLY generated (pydantic extractor) and their properties / required '
         'read out; every params object over subsets of (parameter names + one undocumented name + the context name) is dispatched. '
         'distinct = distinct (signature, context, kind); non-trivial = the signature has a parameter')
@@ -59,15 +60,44 @@ def generate(seed, tier):
                 if ctx is not None and kind == 'function':
                     # the same function also registered WITHOUT the context designation and served first
                     cases.append({'sig': sig, 'ctx': ctx, 'kind': kind, 'twin': True})
+                if kind in ('function', 'coroutine'):
+                    # an exclusion predicate (dependency injection): every non-empty subset of the defaulted parameters
+                    dflt = [n for n, k, d in sig if d and n != ctx]
+                    for r in range(1, len(dflt) + 1):
+                        for xs in itertools.combinations(dflt, r):
+                            cases.append({'sig': sig, 'ctx': ctx, 'kind': kind, 'xs': list(xs),
+                                          'xmode': 'default' if (len(cases) % 2) else 'name'})
     return cases
+
+
+class Inject(str):
+    pass
+
+
+def predicate(case):
+    xs = tuple(case.get('xs') or ())
+    if not xs:
+        return None
+    if case.get('xmode') == 'default':
+        return lambda name, annotation, default: isinstance(default, Inject)
+    return lambda name, annotation, default: name in xs
 
 
 def build(case):
     sig = [tuple(p) for p in case['sig']]
     params = dispenv.sig_source(sig)
+    xs = case.get('xs') or ()
+    if xs:
+        parts, star = [], False
+        for n, k, d in sig:
+            if k == 'KO' and not star:
+                parts.append('*')
+                star = True
+            parts.append('%s%s' % (n, (' = INJ' if (n in xs and case.get('xmode') == 'default') else ' = 0') if d else ''))
+        params = ', '.join(parts)
     is_async = case['kind'] == 'coroutine'
     disp = (AsyncDispatcher if is_async else Dispatcher)()
-    ns = {'ViewMixin': ViewMixin}
+    ns = {'ViewMixin': ViewMixin, 'INJ': Inject('inj')}
     if case['kind'] == 'view':
         exec('class V(ViewMixin):\n    def __init__(self, ctx=None):\n        pass\n    def f(self%s):\n        return 1\n'
              % ((', ' + params) if params else ''), ns)
@@ -76,6 +106,8 @@ def build(case):
         disp.add_methods(reg)
     else:
         exec('%sdef f(%s):\n    return 1\n' % ('async ' if is_async else '', params), ns)
+        if xs:
+            ns['f'] = BaseValidator(exclude_param=predicate(case)).validate(ns['f'])
         if case['ctx']:
             disp.add(ns['f'], context=case['ctx'])
         else:
@@ -85,18 +117,18 @@ def build(case):
     return disp, is_async
 
 
-def doc_params(disp):
+def doc_params(disp, pred=None):
     out = []
     methods = {'': list(disp.registry.values())}
     for version in ('3.0.3', '3.1.0'):
-        spec = oa.OpenAPI(info=oa.Info(version='1', title='t'), schema_extractor=PydanticSchemaExtractor(), openapi=version)
+        spec = oa.OpenAPI(info=oa.Info(version='1', title='t'), schema_extractor=PydanticSchemaExtractor(exclude_param=pred), openapi=version)
         doc = spec.schema(path='/', methods_map=methods)
         json.dumps(doc)
         comps = doc.get('components', {}).get('schemas', {})
         cand = [v for k, v in comps.items() if k.lower() == 'fparameters']
         assert len(cand) == 1, list(comps)
         out.append((sorted(cand[0].get('properties', {})), sorted(cand[0].get('required', []))))
-    spec = orpc.OpenRPC(info=orpc.Info(version='1', title='t'), schema_extractor=PydanticSchemaExtractor())
+    spec = orpc.OpenRPC(info=orpc.Info(version='1', title='t'), schema_extractor=PydanticSchemaExtractor(exclude_param=pred))
     doc = spec.schema(path='/', methods_map=methods)
     json.dumps(doc)
     ps = [m for m in doc['methods'] if m['name'] == 'f'][0]['params']
@@ -108,7 +140,7 @@ def observe(case):
     disp, is_async = build(case)
     if case.get('twin'):
         disp.dispatch(json.dumps({'jsonrpc': '2.0', 'id': 0, 'method': 'g', 'params': {p[0]: 0 for p in case['sig']}}), context='CTX')
-    docs = doc_params(disp)
+    docs = doc_params(disp, predicate(case))
     names = [p[0] for p in case['sig']]
     universe = names + ['zz'] + (['ctx'] if case['kind'] == 'view' else [])
     probes = []
@@ -124,7 +156,7 @@ def observe(case):
 
 def encode(case, obs):
     sig = [tuple(p) for p in case['sig']]
-    excl = [case['ctx']] if case['ctx'] else []
+    excl = ([case['ctx']] if case['ctx'] else []) + list(case.get('xs') or ())
     docs = clist('(%s, %s)' % (clist(cstr(n) for n in names), clist(cstr(n) for n in req)) for names, req in obs['docs'])
     for d, refused, code in obs['probes']:
         if code not in (None, -32602):
@@ -144,6 +176,6 @@ def case_from_json(c):
 def distribution(cases, obs):
     d = {}
     for c, o in zip(cases, obs):
-        k = '%s ctx=%s accepted=%d refused=%d' % (c['kind'], 'yes' if c['ctx'] else 'no', sum(1 for p in o['probes'] if not p[1]), sum(1 for p in o['probes'] if p[1]))
+        k = '%s ctx=%s%s accepted=%d refused=%d' % (c['kind'], 'yes' if c['ctx'] else 'no', ' predicate' if c.get('xs') else '', sum(1 for p in o['probes'] if not p[1]), sum(1 for p in o['probes'] if p[1]))
         d[k] = d.get(k, 0) + 1
     return d
